@@ -1,9 +1,44 @@
-"""MANIFEST.setup_cmd: regenerate coq/Gen from /repo, build the Coq development, the extraction and the OCaml driver."""
+"""MANIFEST.setup_cmd: regenerate coq/Gen from /repo, build the Coq development, the extraction and the OCaml driver.
+Also the hygiene scan: no Admitted / admit / Axiom / Parameter / Conjecture / guard, positivity or universe switches
+anywhere in the development."""
 import os
+import re
 import sys
 sys.path.insert(0, os.path.dirname(os.path.abspath(__file__)))
 import common as C
 
+FORBIDDEN = re.compile(r"\b(Admitted|admit|Axiom|Axioms|Parameter|Parameters|Conjecture|Hypothesis|Variable|Variables|Hypotheses)\b|"
+                       r"Unset\s+Guard|Guard\s+Checking|bypass_check|Positivity\s+Checking|Universe\s+Checking|type-in-type|impredicative-set|Admit\s+Obligations")
+
+
+def hygiene():
+    """Hypothesis / Variable are allowed inside a Section only (they are discharged); everything else never."""
+    bad = []
+    for root, _, files in os.walk(C.COQ):
+        for f in files:
+            if not f.endswith(".v"):
+                continue
+            depth = 0
+            path = os.path.join(root, f)
+            text = re.sub(r"\(\*.*?\*\)", " ", open(path).read(), flags=re.S)      # comments (not nested ones)
+            for ln, line in enumerate(text.splitlines(), 1):
+                if re.match(r"\s*Section\b", line):
+                    depth += 1
+                elif re.match(r"\s*End\b", line) and depth > 0:
+                    depth -= 1
+                for m in FORBIDDEN.finditer(line):
+                    w = m.group(0)
+                    if w in ("Hypothesis", "Variable", "Variables", "Hypotheses") and depth > 0:
+                        continue
+                    bad.append(f"{os.path.relpath(path, C.COQ)}:{ln}: {w}")
+    for f in ("_CoqProject",):
+        t = open(os.path.join(C.COQ, f)).read()
+        if "-type-in-type" in t or "-impredicative-set" in t or "-vos" in t:
+            bad.append(f + ": forbidden flag")
+    return bad
+
+
 res = C.build()
-print(f"built {len(res.ok_files)} files; failed: {sorted(res.failed)}; translator errors: {res.gen_errors}")
-sys.exit(1 if (res.failed or res.gen_errors) else 0)
+bad = hygiene()
+print(f"built {len(res.ok_files)} files; failed: {sorted(res.failed)}; translator errors: {res.gen_errors}; hygiene: {bad or 'clean'}")
+sys.exit(1 if (res.failed or res.gen_errors or bad) else 0)
